@@ -217,6 +217,22 @@ def kind_sig(s):
     return s['k']
 
 
+_P = {}
+
+
+def _st_contains(rec, st, j):
+    idx = _P['base'] + j
+    rnd = random.Random(_P['seed'] + 7919 * idx)
+    rec.traces += 1
+    replay_state(rec, rnd, st['shape'], st['res']['win'], _P['wlo'], _P['whi'], idx)
+
+
+def _st_to_polygon(rec, st, j):
+    rnd = random.Random(_P['seed'] + 7919 * j)
+    rec.traces += 1
+    replay_to_polygon(rec, rnd, st, -12, 12, j)
+
+
 def run(ctx):
     quick = ctx.tier == 'quick'
     rnd = random.Random(ctx.seed * 1000003 + 1)
@@ -230,13 +246,12 @@ def run(ctx):
             ctx.violation(f'C01|model|{res.violated}', f'Geometry.tla: invariant {res.violated} fails in the model', {'trace': res.trace})
             tlc.cleanup(res.workdir)
             continue
-        n = 0
-        for st in parse_dump(res.dump_path, only='pc = "ret"'):
-            if not quick or True:
-                replay_state(ctx, rnd, st['shape'], st['res']['win'], wlo, whi, idx)
-            idx += 1
-            n += 1
-        ctx.traces += n
+        from .. import par
+        _P.update(seed=ctx.seed * 1000003 + 1, wlo=wlo, whi=whi, base=idx)
+        before = ctx.traces
+        n = par.pmap_dump(ctx, _st_contains, res.dump_path, only='pc = "ret"')
+        idx += n
+        n = ctx.traces - before
         ctx.note(f'replayed_{fam}', n)
         tlc.cleanup(res.workdir)
     res = tlc.run('MC_Geometry', cfg_text=cfg('FamRectangles', 'OpsToPolygon', -12, 12, ['InvToPolygon']), dump=True, tag='c01tp')
@@ -244,11 +259,11 @@ def run(ctx):
     if res.violated:
         ctx.violation(f'C01|model|{res.violated}', f'Geometry.tla: invariant {res.violated} fails in the model', {'trace': res.trace})
     else:
-        n = 0
-        for st in parse_dump(res.dump_path, only='pc = "ret"'):
-            replay_to_polygon(ctx, rnd, st, -12, 12, n)
-            n += 1
-        ctx.traces += n
+        from .. import par
+        _P.update(seed=ctx.seed * 1000003 + 77)
+        before = ctx.traces
+        par.pmap_dump(ctx, _st_to_polygon, res.dump_path, only='pc = "ret"')
+        n = ctx.traces - before
         ctx.note('replayed_to_polygon', n)
     tlc.cleanup(res.workdir)
     trace_validation(ctx, rnd)
